@@ -24,6 +24,8 @@ K_LOG = "C08:ignored-client-by-ip-logged-when-anonymised"
 K_CNT = "C08:ignored-client-by-ip-counted-when-anonymised"
 K_SEARCH = "C08:log-api-returns-ignored-client-by-ip-when-anonymised"
 K_MEM = "C08:log-api-memory-entries-not-refiltered"
+K_ZONE = "C08:ignored-client-by-zoned-ipv6-counted-in-statistics"
+K_MAPPED = "C08:client-identified-by-4in6-address-never-ignored"
 
 ADDR_KINDS = ("ip", "cidr", "mac")
 ACTIONS = ["EmitUniverse", "Pick", "RegistryCall", "Record1", "Flush1", "Reconf1", "Record2", "Flush2", "Reconf2", "Record3", "Reconf3"]
@@ -39,6 +41,21 @@ EXPECTED_VIOLATIONS = [
 # ------------------------------------------------------------ classification
 def classify_a(b):
     """Direction A disagreement -> known-finding key (narrow) or None."""
+    fam = b.get("clientFam", "")
+    excess = b.get("seen", 0) - b.get("max", 0)
+    client_only = b.get("v", "") in ("no:R:C", "no:R:A", "no:S:C", "no:S:A")
+    if fam == "z6" and b.get("client") == "ip":
+        # The persistent client is identified by a zoned link-local address:
+        # the statistics (and only they) do not find it.
+        if b.get("kind") == "count-exceeded" and 0 < excess <= b.get("nC", 0):
+            return K_ZONE
+    if fam == "m4" and b.get("client") == "ip":
+        # Identified by the IPv4-mapped spelling: found neither by the query
+        # log nor by the statistics, whatever the reason is NOT a name.
+        if b.get("kind") == "ignored-present" and client_only:
+            return K_MAPPED
+        if b.get("kind") == "count-exceeded" and 0 < excess <= b.get("nC", 0):
+            return K_MAPPED
     if b.get("kind") == "ignored-present":
         v = b.get("v", "")
         addr_client = b.get("anon") and b.get("client") in ADDR_KINDS
@@ -315,7 +332,7 @@ def run(ctx):
     cov = {
         "traces_validated_against_impl": len(sel) + len(trows),
         "scripts_generated": len(scripts), "scripts_replayed": len(sel),
-        "queries_per_script": 186, "evaluations": checked + len(trows),
+        "queries_per_script": 204, "evaluations": checked + len(trows),
         "distinct_nontrivial": nontrivial,
         "rule": "one script per reachable terminal state of IgnoreAnon.tla (configuration x toggle plan x endpoint, 3 recorded rounds, 3 reconfigurations); an evaluation is one "
                 "(observation point, query) or (observation point, counter) comparison; non-trivial = the spec demands absence or admits both "
